@@ -20,6 +20,11 @@ SPEC = dict(
         "SymVerif.C25.step_spec",
         "SymVerif.C25.history_canon",
         "SymVerif.C25.history_states_canon",
+        "SymVerif.C25.zeroMat_canon",
+        "SymVerif.C25.isCanonical_sound",
+        "SymVerif.C25.mk_sound",
+        "SymVerif.C25.matmat_unsorted_witness",
+        "SymVerif.C25.matmat_scratch_oob_witness",
         "SymVerif.C25.exOps_ok",
     ],
     rule="one whole CSR history per op line (constructor from_coo / raw arrays / zero / jacobian, then calls "
@@ -36,7 +41,8 @@ SPEC = dict(
               "dense-matrix oracle in the harness",
     partial=[
         "csr_matmat_pass1/2: modelled as is and compared with the library (arrays) and with the dense product (oracle); "
-        "no Lean theorem. Its result rows are unsorted (finding C25-matmat-unsorted).",
+        "only refutation theorems on concrete witnesses (matmat_unsorted_witness, matmat_scratch_oob_witness). Its "
+        "result rows are unsorted (finding C25-matmat-unsorted).",
         "CSRMatrix::jacobian: only the push loop is modelled (derivatives are inputs); correspondence + oracle on "
         "linear maps, no theorem",
     ],
